@@ -249,6 +249,10 @@ def scn(params):
         # recovery: fault phase then clean
         F = rng.choice([5, 10, 20, 30, 40]) * US
         tf = k.now + 2 * US
+        if cfg["fault"] == "blackout":
+            # total silence from the first moments of the tunnel, for most of the longest fault period the property speaks of
+            F = rng.choice([25, 32, 35, 38]) * US
+            tf = k.now + rng.choice([100000, 300000, 2 * US])
         prof = tunnelscn.fault_profile(cfg, rng, tf, F)
         t.relay.p.update(prof)
         if cfg["raw"]:
